@@ -91,6 +91,7 @@ class Bundle:
         self.files = {}
         self.units = defaultdict(dict)
         self.sites = defaultdict(list)
+        self.by_pid = defaultdict(dict)
         self.order = []
         L = open(path).read().split("\n")
         i = 0
@@ -113,11 +114,12 @@ class Bundle:
                 _, lib, name, n = l.split()
                 n = int(n)
                 self.files[(cur, name)] = L[i + 1:i + 1 + n]
+                self.by_pid[cur][name] = self.files[(cur, name)]
                 i += n
             i += 1
 
     def text_of(self, pid):
-        return {name: "\n".join(t) for (p, name), t in self.files.items() if p == pid}
+        return {name: "\n".join(t) for name, t in self.by_pid[pid].items()}
 
     def nlines(self):
         return sum(len(t) for t in self.files.values())
@@ -237,32 +239,6 @@ def check_libs(res, hbin, d):
                       {"kind": "input", "input": "/repo/vhdl_libraries", "diagnostic": e})
 
 
-LOOP_RE = None
-
-
-def loop_parameter_call_site(text, d):
-    """F34: the diagnostic is on a call that has, as an actual, the parameter of an enclosing
-    `for <id> in <literal> to <literal> loop` (the printer puts every statement on a line of its own)."""
-    import re
-    lines = text.split("\n")
-    if d["sl"] >= len(lines):
-        return False
-    stack = []
-    for l in lines[:d["sl"]]:
-        m = re.match(r"^for (n\d+) in \d+ to \d+ loop$", l)
-        if m:
-            stack.append(m.group(1))
-        elif re.match(r"^while .* loop$", l):
-            stack.append(None)
-        elif l == "end loop;":
-            if stack:
-                stack.pop()
-        elif re.match(r"^(end (function|procedure|process);)$", l):
-            stack = []
-    rest = lines[d["sl"]][d["sc"]:]
-    return any(x is not None and re.search(r"\b%s\b" % x, rest) for x in stack)
-
-
 def known_match(prop, **kw):
     for e in known_findings(prop):
         m = e.get("match", {})
@@ -327,6 +303,10 @@ def main(tier, replay=None):
         stats[kind] += 1
         if m.get("fellback") == "true":
             fell += 1
+        if m.get("nodup_nids", "true") != "true":
+            res.violation("node ids of a generated program are not pairwise different (hypothesis of the theorems): " + pid,
+                          {"kind": "correspondence", "correspondence": "Renumber.renumber / Walk.nodup_nids",
+                           "request": req_of[base]}, no_failing_input=True)
         for r in rewrites:
             rw_kinds[r.split(":")[0]] += 1
         texts = b.text_of(pid)
@@ -343,13 +323,6 @@ def main(tier, replay=None):
             problem = "Project::analyse panics on a valid program"
         elif errors_of(o):
             es = errors_of(o)
-            # known finding F34 (matched by code + call site; everything else stays a violation)
-            f34 = [e for e in es if e["code"] == "AmbiguousCall" and e["file"] in texts
-                   and loop_parameter_call_site(texts[e["file"]], e)]
-            kf = known_match(PROP, code="AmbiguousCall", site_kind="call_with_literal_range_loop_parameter_actual") if f34 else None
-            if kf is not None:
-                known_hits[kf["id"]] += len(f34)
-                es = [e for e in es if e not in f34]
             if es:
                 e = es[0]
                 problem = "error diagnostic on a program the reference calls Valid: " + describe_diag(e)
@@ -390,7 +363,7 @@ def main(tier, replay=None):
             pid = rq["pid"] + ".b"
             if pid not in b.meta:
                 continue
-            texts = [("\n".join(t) + "\n") for (p, name), t in b.files.items() if p == pid]
+            texts = [("\n".join(t) + "\n") for name, t in b.by_pid[pid].items()]
             items.append((rq, [text_checksum(t) for t in texts]))
         if items:
             pre = COQ_PRE + COQ_CKS
